@@ -439,14 +439,16 @@ func cmdRun(args []string) int {
 
 	type agg struct {
 		sync.Mutex
-		sum          workerSummary
-		shapes       map[uint64]struct{}
-		digests      map[uint64]struct{}
-		viols        []workerMsg
-		unconf       []workerMsg
-		crashes      []string
-		lastStart    map[int]workerMsg
-		foreignNotes []string
+		sum           workerSummary
+		shapes        map[uint64]struct{}
+		digests       map[uint64]struct{}
+		viols         []workerMsg
+		unconf        []workerMsg
+		crashes       []string
+		lastStart     map[int]workerMsg
+		foreignNotes  []string
+		crashReports  int
+		skippedDeaths int
 	}
 	a := &agg{shapes: map[uint64]struct{}{}, digests: map[uint64]struct{}{}, lastStart: map[int]workerMsg{}}
 	a.sum.Ops, a.sum.Faults, a.sum.Probes, a.sum.Foreign = map[string]int{}, map[string]int{}, map[string]int{}, map[string]int{}
@@ -473,7 +475,7 @@ func cmdRun(args []string) int {
 			cmd.Env = append(os.Environ(), "GOMEMLIMIT=1500MiB", "GOMAXPROCS=2")
 			// watchdog: a worker checks the deadline between runs only, so a run that never ends would block the check
 			hung := false
-			watchdog := time.AfterFunc(time.Duration(*budget+120)*time.Second, func() {
+			watchdog := time.AfterFunc(time.Duration(*budget+45)*time.Second, func() {
 				hung = true
 				if cmd.Process != nil {
 					cmd.Process.Kill()
@@ -557,7 +559,11 @@ func cmdRun(args []string) int {
 				}
 				a.Unlock()
 				var rep *workerMsg
-				if ls.Seed != 0 && (hung || strings.Contains(stderr.String(), "github.com/mlange-42/arche/")) {
+				a.Lock()
+				a.crashReports++
+				doReport := a.crashReports <= 2
+				a.Unlock()
+				if doReport && ls.Seed != 0 && (hung || strings.Contains(stderr.String(), "github.com/mlange-42/arche/")) {
 					rep = crashReport(bin, *prop, build, ls.Seed, thorough, *outdir)
 					if rep != nil && hung {
 						rep.Class = "hang"
@@ -566,6 +572,8 @@ func cmdRun(args []string) int {
 				a.Lock()
 				if rep != nil {
 					a.viols = append(a.viols, *rep)
+				} else if !doReport {
+					a.skippedDeaths++
 				} else {
 					a.crashes = append(a.crashes, fmt.Sprintf("worker %d (%s) died (%v) in run k=%d seed=%d\n%s", i, build, err, ls.K, ls.Seed, tail))
 				}
@@ -602,6 +610,11 @@ func cmdRun(args []string) int {
 				seenKnown[line] = true
 				knownLines = append(knownLines, line)
 			}
+			continue
+		}
+		if nViol >= 3 {
+			// enough: further violations of this batch are counted, not replayed
+			nViol++
 			continue
 		}
 		// confirm in a fresh process
